@@ -241,6 +241,7 @@ CLASS_RANGES = {
     "printable": [(32, 126)],
     "byte": [(0, 255)],
     "json_escape": [(0, 31), (34, 34), (92, 92)],
+    "abr": [(97, 98), (114, 114)],
     # structural JSON characters, quote, backslash, a letter and the two bytes of U+00E9
     "jsonish": [(34, 34), (44, 44), (58, 58), (91, 93), (97, 97), (123, 123), (125, 125), (0xC3, 0xC3), (0xA9, 0xA9)],
 }
@@ -251,11 +252,11 @@ SUBCLASS = {
     ("hex", "alnum"), ("hex", "word"), ("hex", "printable"), ("hex", "byte"),
     ("lower", "alnum"), ("lower", "word"), ("lower", "printable"), ("lower", "byte"),
     ("alnum", "word"), ("alnum", "printable"), ("alnum", "byte"), ("word", "printable"), ("word", "byte"),
-    ("printable", "byte"),
+    ("printable", "byte"), ("abr", "lower"), ("abr", "alnum"), ("abr", "word"), ("abr", "printable"), ("abr", "byte"), ("abr", "hex") if False else ("abr", "byte"),
 }
 DISJOINT = {
     ("digit", "lower"), ("lower", "digit"), ("digit", "json_escape"), ("hex", "json_escape"), ("lower", "json_escape"),
-    ("alnum", "json_escape"), ("word", "json_escape"),
+    ("alnum", "json_escape"), ("word", "json_escape"), ("abr", "json_escape"), ("abr", "digit"),
 }
 
 
